@@ -148,7 +148,12 @@ def main(argv):
     undecodable = [c for c in cases if c.get('nodec')]
     cases = [c for c in cases if not c.get('nodec')]
 
-    okc, mism, clog = vlib.eval_cases(PROP, HEADER, [c['coq'] for c in cases], shard_size=150, timeout=300)
+    # spread the (expensive) vector cases over all shards: evaluate a strided permutation
+    shard = 300
+    nsh = max(1, (len(cases) + shard - 1) // shard)
+    perm = sorted(range(len(cases)), key=lambda i: (i % nsh, i))
+    okc, mism_p, clog = vlib.eval_cases(PROP, HEADER, [cases[i]['coq'] for i in perm], shard_size=shard, timeout=300)
+    mism = [(perm[k], dcode) for k, dcode in mism_p]
     det = dict(mism)
     impl_bad = [i for i in range(len(cases)) if det.get(i, 0) & 1]
     spec_bad = [i for i in range(len(cases)) if det.get(i, 0) & 2]
@@ -207,7 +212,7 @@ def main(argv):
     rep.coverage.update({
         'evaluations': len(cases),
         'distinct_nontrivial': len({vlib.case_hash(strip(c)) for c in cases if nontrivial(c)}),
-        'rule': 'one instruction per case, all implemented SOP2/SOP1/SOPC/SOPK/SOPP opcodes of both ALUs. (a) deterministic corner grid, always run: each source in {0, 1, 0x7fffffff, 0x80000000, 0xfffffffe, 0xffffffff, random} x each other source likewise x SCC-in {0,1} (64-bit analogues for B64 rows; EXEC x source for saveexec); shift amounts {0,1,31,32,33,63,64,0xffffffff}; bit-field offset {0,1,4,16,31} x width {0,1,4,16,28,31,32,33,64,127}; SOPK immediates x register values equal/near the sign-extended immediate; SOPP immediates x SCC x VCC zero/non-zero x EXEC zero/non-zero. (b) %d random cases per opcode: operand kinds SGPR / literal / '
+        'rule': 'one instruction per case, all implemented SOP2/SOP1/SOPC/SOPK/SOPP opcodes of both ALUs. (a) deterministic corner grid, always run: each source in {0, 1, 0x7fffffff, 0x80000000, 0xfffffffe, 0xffffffff, random} x each other source likewise x SCC-in {0,1} (64-bit analogues for B64 rows; EXEC x source for saveexec); shift amounts {0,1,31,32,33,63,64,0xffffffff}; bit-field offset {0,1,4,16,31} x width {0,1,4,16,28,31,32,33,64,127}; SOPK immediates x register values equal/near the sign-extended immediate; SOPP immediates x SCC x VCC zero/non-zero x EXEC zero/non-zero. (c) vector integer opcodes of VOP2/VOP1/VOPC/VOP3a/VOP3b: two 64-lane grid cases per opcode (per-lane cross product of eight operand corners, shift-amount / 64-bit corners, carry-in pattern and complement, EXEC full and with holes) plus random cases with all operand kinds; corpus of repaired-defect witnesses. (b) %d random cases per scalar opcode: operand kinds SGPR / literal / '
                 'inline +- / float constants / vcc_lo / vcc_hi / m0 / exec_lo / scc / exec_hi / vccz / execz, destinations SGPR / vcc / m0 / exec; '
                 'values from corner sets (0, 1, -1, 0x7fffffff, 0x80000000, shift amounts 31/32/33/63/64, bit-field descriptors, carry pairs a+b=2^32-1) and random; '
                 'random SCC/VCC/EXEC/M0/PC and register-file fill; non-trivial = executed without panic and changed state or is a compare/branch' % per,
